@@ -23,6 +23,15 @@ Theorem C08_restart_keeps_databases_partial : forall cap end_block es st r st',
   l_conf st' = l_conf st /\ l_idx st' = l_idx st /\ elinv st'.
 Proof. exact restart_keeps_databases. Qed.
 
+(* the restarted instance is the old one up to the forkless-cause cache, the build counter and the votes /
+   decisions of the election (same frame to decide, same validators): what remains for C08_full is that
+   the re-voted maps agree with the incremental ones (L1') *)
+Theorem C08_restart_state_shape_partial : forall cap end_block es st r st',
+  bootstrap cap end_block es (persist st) = (r, [], st') ->
+  exists c n el, st' = set_el (set_fcc (set_ctr st n) c) el /\
+                 el_frame el = l_ldf st + 1 /\ el_vals el = l_vals st.
+Proof. exact restart_state_shape. Qed.
+
 Theorem C08_bootstrap_blocks_partial : forall cap end_block es p r bl st',
   bootstrap cap end_block es p = (r, bl, st') ->
   frames_ok (p_ldf p) bl /\ elinv st' /\
@@ -42,4 +51,5 @@ Proof. exact restart_everywhere_witness. Qed.
 
 Print Assumptions C08_restart_is_revote_partial.
 Print Assumptions C08_restart_keeps_databases_partial.
+Print Assumptions C08_restart_state_shape_partial.
 Print Assumptions C08_bootstrap_blocks_partial.
